@@ -209,7 +209,7 @@ impl Check for C08 {
     }
     fn cases(&self, thorough: bool) -> usize {
         if thorough {
-            100_000
+            50_000
         } else {
             2_500
         }
